@@ -125,7 +125,8 @@ Proof.
   rewrite (mapM_ok _ (fun c => (c, char_size c)))
     by (intros x _; now rewrite get_character_cell_size_gen_big).
   cbn [bind].
-  replace (py_idx [[]] (-1)) with (Ok (@nil Z)) by reflexivity. cbn [bind].
+  (* `append = lines[-1].append` (an IndexError check at the binding) or `lines[-1].append(c)` called directly *)
+  change (py_idx [[]] (-1)) with (Ok (@nil Z)). cbn [bind].
   match goal with |- context [while_loop _ ?c ?b _] => set (cond := c); set (body := b) end.
   match goal with |- bind _ ?p = _ => set (post := p) end.
   assert (L : forall rest fuel cur done tot, (length rest < fuel)%nat ->
@@ -139,7 +140,7 @@ Proof.
       cbn [while_loop map rev chop_go]. unfold cond at 1. rewrite nonempty_snoc.
       unfold body at 1. rewrite py_pop_snoc. cbn [bind].
       destruct (max_size <? tot + char_size c).
-      + rewrite py_idx_last_snoc. cbn [bind].
+      + rewrite ?py_idx_last_snoc. cbn [bind].
         change ((rev done ++ [rev cur]) ++ [[c]]) with (rev (rev cur :: done) ++ [rev [c]]).
         apply IH. lia.
       + rewrite py_append_last_snoc. cbn [bind].
